@@ -136,7 +136,10 @@ def plant(cert_cfg, pre):
     """Step: files that exist before the daemon's first write - 'emptykey' (a 0-byte private key, no certificate), 'emptyboth', 'pair' (an expired pair)."""
     def f(sc):
         base = os.path.join(sc.world.certs, project.cert_id(cert_cfg))
-        if pre == "pair":
+        if pre == "dangling":
+            # the key path is a symbolic link to a file that does not exist yet: nothing is there, the write creates the target
+            os.symlink(os.path.basename(base) + ".real-key", base + ".pk.pem")
+        elif pre == "pair":
             flowcheck.install_pair(cert_cfg, "pair")(sc)
         else:
             for ext in ((".pk.pem",) if pre == "emptykey" else (".pk.pem", ".crt.pem")):
@@ -183,7 +186,7 @@ def hooks_layer(x):
     acc_dir = os.path.join(x["world"], "accounts")
     ids = ",".join(i["id"].split(":", 1)[1] for i in meta["flow"][cid]["ids"])
     pre = meta.get("pre", "none")
-    present = [os.path.join(certs_dir, cid + ext) for ext in {"none": (), "emptykey": (".pk.pem",)}.get(pre, (".pk.pem", ".crt.pem"))]
+    present = [os.path.join(certs_dir, cid + ext) for ext in {"none": (), "dangling": (), "emptykey": (".pk.pem",)}.get(pre, (".pk.pem", ".crt.pem"))]
     out = [{"e": "Reset", "defs": meta["hooks_conf"]["defs"], "groups": meta["hooks_conf"]["groups"], "lists": meta["hooks_conf"]["lists"], "present": present}]
     last_req = {"ok": None, "status": None}
     cur_type = None
@@ -250,9 +253,9 @@ def run(ctx):
     sample = rng.sample(confs, min(n, len(confs)))
     specs = [build_spec(i, rc, "C10/s%04d" % i) for i, rc in enumerate(sample)]
     # the same kind of configuration with files already there: an existing file is edited, whatever is in it
-    m = 240 if ctx.tier == "thorough" else 18
+    m = 240 if ctx.tier == "thorough" else 20
     for j, rc in enumerate(rng.sample(confs, min(m, len(confs)))):
-        specs.append(build_spec(len(sample) + j, rc, "C10/p%04d" % j, pre=("emptykey", "pair", "emptyboth")[j % 3]))
+        specs.append(build_spec(len(sample) + j, rc, "C10/p%04d" % j, pre=("emptykey", "pair", "emptyboth", "dangling")[j % 4]))
     results = flows.run_many(specs, workers=12)
     lines, owner = [], []
     for i, x in enumerate(results):
